@@ -105,13 +105,46 @@ func clipCircleProbe(ctx *core.Ctx, bin string) {
 		}
 		return r.Int, true
 	}
-	for q := 0; q < 40; q++ {
+	// multi-part areas: squares whose corners lie on x.xx5 (no point, which sits on hundredths, is
+	// on an edge), some outside the clip rectangle, in random order, in the three container types
+	multi := func(kind int) string {
+		n := 3 + rng.Intn(4)
+		var polys []string
+		for i := 0; i < n; i++ {
+			x0, y0 := float64(rng.Intn(1000)-600)/100+0.005, float64(rng.Intn(1000)-600)/100+0.005
+			if i == 0 {
+				x0, y0 = -5.995+float64(rng.Intn(2))*9, -5.995+float64(rng.Intn(2))*9 // a member in a far corner comes first
+			}
+			w, h := float64(50+rng.Intn(250))/100, float64(50+rng.Intn(250))/100
+			polys = append(polys, fmt.Sprintf("[[[%g,%g],[%g,%g],[%g,%g],[%g,%g],[%g,%g]]]", x0, y0, x0+w, y0, x0+w, y0+h, x0, y0+h, x0, y0))
+		}
+		switch kind {
+		case 0:
+			return `{"type":"MultiPolygon","coordinates":[` + strings.Join(polys, ",") + `]}`
+		case 1:
+			var gs []string
+			for _, pl := range polys {
+				gs = append(gs, `{"type":"Polygon","coordinates":`+pl+`}`)
+			}
+			return `{"type":"GeometryCollection","geometries":[` + strings.Join(gs, ",") + `]}`
+		}
+		var fs []string
+		for _, pl := range polys {
+			fs = append(fs, `{"type":"Feature","geometry":{"type":"Polygon","coordinates":`+pl+`},"properties":{}}`)
+		}
+		return `{"type":"FeatureCollection","features":[` + strings.Join(fs, ",") + `]}`
+	}
+	for q := 0; q < 70; q++ {
 		area := []string{"CIRCLE", strconv.Itoa(rng.Intn(7) - 3), strconv.Itoa(rng.Intn(7) - 3), strconv.Itoa(100000 + rng.Intn(500000))}
 		band := true // the circle is a 64-gon for clipping: positions near its rim are not judged
 		if q%8 == 7 {
 			area, band = []string{"GET", "clipref", "pt"}, false
 		}
 		la, lo := float64(rng.Intn(800)-400)/100, float64(rng.Intn(800)-400)/100
+		if q >= 40 {
+			area, band = []string{"OBJECT", multi(q % 3)}, false
+			la, lo = la+0.0025, lo+0.0025
+		}
 		clip := []string{"BOUNDS", strconv.FormatFloat(la, 'f', -1, 64), strconv.FormatFloat(lo, 'f', -1, 64), strconv.FormatFloat(la+float64(1+rng.Intn(400))/100, 'f', -1, 64), strconv.FormatFloat(lo+float64(1+rng.Intn(400))/100, 'f', -1, 64)}
 		for _, cmd := range []string{"INTERSECTS", "WITHIN"} {
 			full := append(append(append([]string{cmd, "clipk", "LIMIT", "100000", "IDS"}, area...), "CLIPBY"), clip...)
@@ -130,7 +163,7 @@ func clipCircleProbe(ctx *core.Ctx, bin string) {
 			}
 			ctx.Eval(1)
 			ctx.Count("clip_circle_queries", 1)
-			ctx.Distinct("clip-circle|" + cmd + "|" + area[0])
+			ctx.Distinct("clip-circle|" + cmd + "|" + area[0] + "|" + strconv.Itoa(q%3*btoi(q >= 40)))
 			all := append(append([]pt{}, pts...), pt{"at-ref", 1, 1})
 			for _, p := range all {
 				inClip, ok1 := test(p, clip...)
@@ -208,4 +241,11 @@ func circleFeatureProbe(ctx *core.Ctx, bin string) {
 			return
 		}
 	}
+}
+
+func btoi(b bool) int {
+	if b {
+		return 1
+	}
+	return 0
 }
